@@ -767,6 +767,10 @@ ASMJIT_FAVOR_SPEED Error ARMRAPass::rewrite() noexcept {
               ASMJIT_ASSERT(work_reg != nullptr);
 
               RAStackSlot* slot = work_reg->stack_slot();
+              if (ASMJIT_UNLIKELY(!slot)) {
+                // The home slot could not be allocated when the register was spilled (see work_reg_as_mem()).
+                return make_error(Error::kOutOfMemory);
+              }
               int32_t offset = slot->offset();
 
               mem._set_base(_sp.reg_type(), slot->base_reg_id());
